@@ -12,6 +12,7 @@ def run(ctx):
     ctx.rule("R-ROLE-WRITERS", "which role structurally modifies which session table (insert/delete)", floor=4)
     ctx.rule("R-REFUSE", "a new transfer is refused while the pair's previous session entry still exists (any state)", floor=5)
     ctx.rule("R-POOL-PAIR", "FD: the session number goes back to the pool only after the session entry is deleted", floor=10)
+    ctx.rule("R-PAIR-ORDER", "state / deadline pair: written state-first by the receive path, read deadline-first by the job scan", floor=6)
     for fd in (False, True):
         L = T.Layer(ctx, fd=fd)
         dele = R.job_subscript(ctx, L)
@@ -25,6 +26,7 @@ def run(ctx):
                              "send sessions are deleted by %s: the job thread's burst loop keeps sending from / re-arming a session that "
                              "no longer exists, and its own del raises KeyError" % f.name, n)
         S.order_send(ctx, L)
+        R.pair_order(ctx, L)
         # a pair / session number must stay occupied until the job thread has removed the old entry: otherwise a send_pgn that
         # runs between the two steps creates a session under the key the job thread then deletes
         T.refuse(ctx, L)
